@@ -12,3 +12,19 @@ reg("C01", "model_checking", "TLC evaluates the stratified least model (Datalog.
     "TLC computes Model(P, EDB) from the declarative TLA+ semantics for every EDB of a bounded space for each generated program, "
     "checking model-hood and supportedness of its own result; the real interpreter is run on the same inputs and every output "
     "relation must equal the model as a set of typed tuples, without duplicates.", EVAL_NOTE, "DESIGN.md 9 C01")
+
+def eval_reg(pid, what, extra_note=""):
+    reg(pid, "model_checking",
+        "TLC computes the stratified least model (spec/Datalog.tla) for every small EDB; real souffle runs in every configuration the property names must reproduce it",
+        "One TLC evaluation of Model(P, EDB) per generated program and EDB (exhaustive EDB space over a small domain when <=512 EDBs) "
+        "is the configuration-independent oracle; " + what + " Outputs are compared as sets of typed tuples.",
+        EVAL_NOTE + " " + extra_note, "DESIGN.md 9 " + pid)
+
+eval_reg("C02", "the same programs are compiled to C++ in single-file (-o) and multi-file (-G + souffle-compile) mode and the executables run on the sampled EDBs.", "The C++ compiler is trusted.")
+eval_reg("C03", "interpreter runs at -j2,3,4,8,16 with two seeded perturbation schedules each (hook H1: yields/sleeps at lock primitives) and compiled runs at -j4 and -j1.",
+         "OpenMP schedules are perturbed, not enumerated; exhaustive interleaving coverage lives at container level (C25-C31).")
+eval_reg("C04", "every switchable pass named by the property is disabled singly and in seeded subsets (--disable-transformers), and inline/no_inline is toggled on non-output relations (variants the checker rejects are skipped). The generator plants the patterns each pass looks for.")
+eval_reg("C05", "--magic-transform with *, every non-empty subset of IDB relations (<=4 relations, sampled beyond), magic/no_magic qualifiers and --magic-transform-exclude.")
+eval_reg("C06", "each RAM transformer is skipped singly and in seeded subsets through hook H4 (SOUFFLE_VERIF_SKIP_RAM), interpreter at -j4 and sampled compiled runs.")
+eval_reg("C07", ".plan directives with seeded permutations for every version of every recursive clause with 2-4 atoms, all nine RamSIPS metrics, and profile-guided auto-scheduling (-p --emit-statistics then -a).")
+eval_reg("C08", "btree/brie/btree_delete qualifiers are varied per relation (uniform and mixed), interpreter and compiled; half of the programs use the extreme domain {MIN,-1,MAX}; eqrel relations get closure semantics in the spec.")
